@@ -141,7 +141,7 @@ def run(chk):
 def _is_fallback(v):
     if v.kind == K_TUPLE and v.items is not None:
         return all(i.kind == K_NONE for i in v.items)
-    return v.has_const() and v.const == 0 and v.kind in (K_SCALAR, K_BOOL) and not (v.tags - frozenset(t for t in v.tags if t.startswith(("p:", "len-of", "where", "abs", "attr:", "arange"))))
+    return v.has_const() and v.const == 0 and v.kind in (K_SCALAR, K_BOOL)     # a literal 0, whatever condition guards it
 
 
 def _fallback_ok(v, se):
